@@ -78,15 +78,28 @@ def deep(rng, n):
     return ("f(" * n + "x" + "," * n).encode()
 
 
+def tame_powers(b):
+    """Replace a power operator by `*` when its exponent starts with a literal of more than two digits or is
+    itself the base of another numeric power: 1844674407370@9551616 or 9**9**9 are hour-long integer
+    computations, not parser business (they only produce time-outs on both sides)."""
+    import re
+    pat = re.compile(rb"(\*\*|\^|@)(?=[\s(+\-]*(\d{3,}|\d+[\s)]*(\*\*|\^|@)[\s(+\-]*\d))")
+    prev = None
+    while prev != b:
+        prev = b
+        b = pat.sub(b"*", b)
+    return b
+
+
 def gen_input(rng, tier):
     r = rng.random()
     if r < 0.30:
-        return valid_string(rng).encode("latin-1")
+        return tame_powers(valid_string(rng).encode("latin-1"))
     if r < 0.75:
-        return mutate(rng, valid_string(rng))
+        return tame_powers(mutate(rng, valid_string(rng)))
     if r < 0.85:
         from checks import C17
-        return C17.token_soup(rng).encode("latin-1")
+        return tame_powers(C17.token_soup(rng).encode("latin-1"))
     if r < 0.97:
         return raw_bytes(rng)
     return deep(rng, rng.choice([50, 300] if tier == "quick" else [50, 300, 1500]))
@@ -227,7 +240,9 @@ def explore(ctx, drv, model, hist, search=False):
         # ---- oracle on the library alone
         for i in range(n):
             for which, lst in (("reused parser", R), ("fresh parser", F)):
-                r = lst[i] if i < len(lst) else (lst[-1] if lst else "NOOUTPUT")
+                if i >= len(lst):
+                    continue   # the reused parser's process died at an earlier input (reported there)
+                r = lst[i]
                 if pc.is_crash(r) or r.startswith("EXN:7") or r.startswith("EXN:8"):
                     same = i < len(M) and M[i] == r
                     if pc.is_crash(r):
@@ -256,6 +271,12 @@ def explore(ctx, drv, model, hist, search=False):
             r, m = R[i], M[i]
             if pc.is_crash(r):
                 break
+            if m == "HANG":
+                # the driver's evaluation of the model's recipe ran into its time limit (a huge power, say)
+                # while the library's own parse finished in time: timing noise, not a disagreement
+                ctx.cov.setdefault("model_recipe_timeouts", 0)
+                ctx.cov["model_recipe_timeouts"] += 1
+                break
             ok = (r == m) or (m == "EXN:4" and r.startswith("EXN:"))
             if m == "EXN:4" and r.startswith("EXN:") and r != "EXN:4":
                 ctx.cov.setdefault("action_exception_before_syntax_error", 0)
@@ -266,6 +287,8 @@ def explore(ctx, drv, model, hist, search=False):
             if not ok or not res_ok:
                 ndis += 1
                 if ndis <= 3:
+                    ctx.notes.append("model != implementation: history %s (convert_xor=%s), call %d: model %s | res %s; impl %s | res %s" % (
+                        [pc.show(s) for s in ins], c, i, m[:160], eff[:160], r[:160], RES[i][:160] if i < len(RES) else "?"))
                     ctx.broken.append({"kind": "correspondence", "name": "C18 history",
                                        "detail": "history %s (convert_xor=%s), call %d\n model: %s | res %s\n impl:  %s | res %s" % (
                                            [pc.show(s) for s in ins], c, i, m[:200], eff[:200], r[:200],
